@@ -938,6 +938,10 @@ cdef class ParticleArray:
         self.default_values[prop_name] = default
         if stride != 1:
             self.stride[name] = stride
+        elif prop_name not in self.properties:
+            # a new property with stride 1 must not inherit the stride of a
+            # removed property of the same name.
+            self.stride.pop(name, None)
 
         # array sizes are compatible, now resize the required arrays
         # appropriately and add.
@@ -1415,6 +1419,7 @@ cdef class ParticleArray:
         if self.properties.has_key(prop_name):
             self.properties.pop(prop_name)
             self.default_values.pop(prop_name)
+            self.stride.pop(prop_name, None)
         if prop_name in self.output_property_arrays:
             self.output_property_arrays.remove(prop_name)
         if self.gpu is not None:
